@@ -98,6 +98,7 @@ pub struct TimerTask {
     pub parent_task: u32,
     pub spawned: u64,
     pub dead: Option<u64>,
+    pub dead_vt: u64,
 }
 
 pub struct View<'a> {
@@ -219,7 +220,7 @@ impl<'a> View<'a> {
                             },
                         );
                     } else if *kind == KIND_LIB {
-                        timers.push(TimerTask { task: *id, parent_task: *parent, spawned: r.st.seq, dead: None });
+                        timers.push(TimerTask { task: *id, parent_task: *parent, spawned: r.st.seq, dead: None, dead_vt: 0 });
                     }
                 }
                 Ev::Task(TaskE::Done { id, kind, how }) => {
@@ -232,6 +233,7 @@ impl<'a> View<'a> {
                     } else if *kind == KIND_LIB {
                         if let Some(t) = timers.iter_mut().find(|t| t.task == *id) {
                             t.dead = Some(r.st.seq);
+                            t.dead_vt = r.st.vtime;
                         }
                     }
                 }
